@@ -297,7 +297,7 @@ def cached_run_all(bounds):
     return res
 
 
-def run_property(pid, tier, technique_extra=''):
+def run_property(pid, tier, technique_extra='', extra=None):
     # two complementary slices of the space per size: (A) every attempt order x
     # lookup modes {v[x], v.get(x)}; (B) natural order x blank/non-blank/refused answers
     A = dict(order='symbolic', n_modes=2, n_answers=2)
@@ -361,4 +361,6 @@ def run_property(pid, tier, technique_extra=''):
                                                      'max_attempts_in_one_solve': max(r['max_attempts'] for r in results), 'wall_s': round(max(r['wall'] for r in results), 1)}
         if kinds.get('solved', 0) == 0 or kinds.get('unsolved', 0) == 0:
             c.inconclusive.append('vacuity: config %s reached no solved or no unsolved end state' % name)
+    if extra is not None:
+        extra(c, tier)
     return c.finish()
